@@ -123,6 +123,12 @@ func c17Programs(tier string) []*Spec {
 		sp.Main = []Op{{K: "add", B: 0}, {K: "add", B: 1}, {K: "add", B: 2}, {K: "incr", B: 2, N: 2}}
 		sp.Clients = [][]Op{fin(0, 2), fin(1, 2)}
 		out = append(out, sp)
+		// the successor is a filler-less bar created with Progress.New(total, nil, options...)
+		sp = base("wf-nil-builder")
+		sp.Bars[2].NilBuilder = true
+		sp.Main = []Op{{K: "add", B: 0}, {K: "add", B: 1}, {K: "add", B: 2}}
+		sp.Clients = [][]Op{fin(0, 2), fin(1, 2), fin(2, 2)}
+		out = append(out, sp)
 		// chain P <- S <- T
 		sp = base("wf-chain")
 		sp.Bars = append(sp.Bars, BarSpec{Total: 1, After: 3, Pre: []DecorSpec{syncD(2)}})
